@@ -17,6 +17,10 @@
 (*   "S03A"  get_follow_leading ignores whitespace-only lines only when    *)
 (*           they are EMPTY after trimming (seeded change C03-A): the      *)
 (*           model-level convergence invariant fails.                      *)
+(*   "F29"   the code as found before fix F29: a line holding only a tab   *)
+(*           (body "\t" — put it into MidBodies) counts with the position  *)
+(*           of the tab; it is stripped from the output and the next run   *)
+(*           shifts the comment: InvConvergence fails.                     *)
 (***************************************************************************)
 EXTENDS MarkupLayout, FiniteSets, Json
 CONSTANTS MaxLines, Leads, MidBodies, EndBodies, Places, MaxW, Unit, GenOn, AsFoundC
@@ -43,7 +47,10 @@ Bullet(ls) == \A i \in 1..Len(ls) : StartsStar(ls[i].body)
 (* get_follow_leading: the minimum over the continuation lines of the position of the first non-blank character;
    a line of blanks only does not count *)
 BIG == 1000000
-FirstNonBlank(x) == IF x.body = "" THEN (IF "S03A" \in AsFoundC /\ x.lead > 0 THEN x.lead ELSE BIG) ELSE x.lead
+WsOnly(b) == b \in {"", "\t"}                     \* a line of white space only (blanks, a tab) does not count
+FirstNonBlank(x) == IF x.body = "" THEN (IF "S03A" \in AsFoundC /\ x.lead > 0 THEN x.lead ELSE BIG)
+                    ELSE IF x.body = "\t" THEN (IF "F29" \in AsFoundC THEN x.lead ELSE BIG)
+                    ELSE x.lead
 MinOf(S) == CHOOSE m \in S : \A k \in S : m <= k
 Leading(ls) == MinOf({FirstNonBlank(ls[i]) : i \in 1..Len(ls)})
 (* align_multiline *)
@@ -94,12 +101,12 @@ OutCont(ls) == LET o == OpenLine(ls)  c == CloseLine(ls) IN
 (* C06 at model level: every line of the comment keeps its text (blanks at the ends aside), in order *)
 InvTextKept   == done => \A w \in 0..MaxW : LET oc == OutCont(Out(w)) IN
                             /\ Len(oc) = Len(lines)
-                            /\ \A i \in 1..Len(lines) : oc[i].body = lines[i].body
+                            /\ \A i \in 1..Len(lines) : oc[i].body = (IF WsOnly(lines[i].body) THEN "" ELSE lines[i].body)
 (* the first line stays where the layout puts it; `/* c0` is followed by nothing on its line *)
 InvFirstLine  == done => \A w \in 0..MaxW : EndsWithS(Out(w)[OpenLine(Out(w))], First)
 (* plain style: the continuation lines keep their indentation RELATIVE to each other *)
 InvRelative   == (done /\ ~Bullet(lines)) => \A w \in 0..MaxW : LET oc == OutCont(Out(w)) IN
-                    \A i, j \in 1..Len(lines) : (lines[i].body # "" /\ lines[j].body # "") =>
+                    \A i, j \in 1..Len(lines) : (~WsOnly(lines[i].body) /\ ~WsOnly(lines[j].body)) =>
                         oc[i].lead - oc[j].lead = lines[i].lead - lines[j].lead
 (* bullet style: every star is one column right of the slash *)
 InvBullet     == (done /\ Bullet(lines)) => \A w \in 0..MaxW : LET o == OpenLine(Out(w))  oc == OutCont(Out(w))
@@ -108,6 +115,9 @@ InvBullet     == (done /\ Bullet(lines)) => \A w \in 0..MaxW : LET o == OpenLine
 InvHygiene    == done => \A w \in 0..MaxW : \A i \in 1..Len(Out(w)) : Out(w)[i] = "" \/ ~EndsWithS(Out(w)[i], " ")
 (* C03 at model level: the comment of the output, laid out again in the same place at the same width *)
 InvConvergence == done => \A w \in 0..MaxW : OutOf(OutCont(Out(w)), place, w) = Out(w)
+
+(* cfg of bin/selftest: `MidBodies <- MidBodiesTab` (a tab cannot be written in a cfg file) *)
+MidBodiesTab == {"c1", "\t", ""}
 
 Gen == (done /\ GenOn) => PrintT(<<"GEN", ToJson([inst |-> "comment", unit |-> Unit, place |-> place,
                                                  src |-> SrcLines(lines),
